@@ -35,6 +35,19 @@ Theorem wait_barrier :
 Proof. exact wait_barrier_lemma. Qed.
 Print Assumptions wait_barrier.
 
+(* The accepted Wait event of a wait id is unique (a wait id is accepted once), so
+   the same holds for EVERY decomposition of the history at an accepted Wait w. *)
+Theorem wait_barrier_every_decomposition :
+  forall (T : N) (evs : list event) (e : event) (w : nat) (t : N) (n : nat),
+    In (WaitRet w t n) (snd (step (final T evs) e)) ->
+    forall pre c post,
+      evs ++ [e] = pre ++ Wait w c :: post -> is_dead (final T pre) = false ->
+      existsb (Nat.eqb w) (wseen (final T pre)) = false ->
+      forall p x, In p (seen (final T pre)) -> In (p, x) (g_offered (gh (final T (evs ++ [e])))) ->
+                  In x (ok_sets (concat (trace T (evs ++ [e])))).
+Proof. exact wait_barrier_forall. Qed.
+Print Assumptions wait_barrier_every_decomposition.
+
 (* Behind it, the completion flag: whenever the event is set at a quiescent point,
    the daemon is idle, the queue is empty and everything handed to the buffer
    so far, by any thread, has been delivered in a call that returned without error. *)
